@@ -19,9 +19,14 @@ import (
 	"bytes"
 	"fmt"
 	"io"
+	"os"
+	"path/filepath"
+	"reflect"
+	"sort"
 	"strconv"
 	"strings"
 	"time"
+	"unsafe"
 
 	"github.com/tdewolff/minify/v2"
 	"github.com/tdewolff/minify/v2/css"
@@ -135,19 +140,29 @@ func c05bMinify(src []byte, cfg c05bCfg) (out []byte, err error, crash string) {
 	return
 }
 
-// c05bPath answers a `path` request with the real ShortenPathData, reached through the public API:
-// `<path d="payload"/>` (the payload is what buffer.go delivered: references to < & TAB LF CR are still escaped,
-// so only the quote has to be written as a reference).
+// c05bPath answers a `path` request with the real ShortenPathData (public: svg.NewPathData, ShortenPathData) on a
+// Minifier whose unexported `newPrecision` is set to the value Minify computes for Precision 0 (15).  The field is
+// reached through reflect+unsafe; when it no longer exists the answer is taken from svg.Minify on `<path d=…/>`
+// (exact only for payloads that buffer.go and the dimension rewrite leave unchanged).
 func c05bPath(payload []byte) (out []byte, ok bool) {
 	if len(payload) == 0 {
 		return payload, true
 	}
+	o := &svg.Minifier{}
+	f := reflect.ValueOf(o).Elem().FieldByName("newPrecision")
+	if f.IsValid() && f.Kind() == reflect.Int {
+		*(*int)(unsafe.Pointer(f.UnsafeAddr())) = 15
+		crash := h.Safely(20*time.Second, func() {
+			out = append([]byte{}, svg.NewPathData(o).ShortenPathData(append([]byte{}, payload...))...)
+		})
+		return out, crash == ""
+	}
 	doc := `<path d="` + strings.ReplaceAll(string(payload), `"`, "&quot;") + `"/>`
-	o, err, crash := c05bMinify([]byte(doc), c05bCfg{sub: "none"})
-	if crash != "" || err != nil || !bytes.HasPrefix(o, []byte(`<path d=`)) || !bytes.HasSuffix(o, []byte(`/>`)) {
+	res, err, crash := c05bMinify([]byte(doc), c05bCfg{sub: "none"})
+	if crash != "" || err != nil || !bytes.HasPrefix(res, []byte(`<path d=`)) || !bytes.HasSuffix(res, []byte(`/>`)) {
 		return nil, false
 	}
-	v := o[len(`<path d=`) : len(o)-2]
+	v := res[len(`<path d=`) : len(res)-2]
 	if len(v) < 2 {
 		return nil, false
 	}
@@ -345,6 +360,62 @@ func init() {
 		for _, f := range c05bFixed {
 			for _, cfg := range c05bCfgs {
 				if cs := c05bPrepare(c, st, []byte(f), cfg); cs != nil {
+					cases = append(cases, cs)
+				}
+			}
+		}
+		if err := c05bCorr(c, st, cases); err != nil {
+			return err
+		}
+		st.End()
+
+		// ---- generated documents ----
+		st = c.R.StartStage("generated", "seeded SVG documents (all element kinds incl. style/defs/metadata/foreignObject, svg:-prefixed and foreign elements, prefixed attributes of every kind, root defaults, dimensions in every notation/unit, colour names/hex, viewBox forms, style text/CDATA/attribute, comments, PIs, DOCTYPE with internal subset, empty and whitespace-only elements; 1 in 5 documents also with not well-formed shapes) x one configuration each (stand-alone/inline x KeepComments x css.Minify/no style minifier/stub); model on the real lexer's tokens vs svg.Minify bytes; non-trivial = output differs from input")
+		n := c.N(6000, 120000)
+		if c.Search {
+			n *= 3
+		}
+		cases = cases[:0]
+		for i := 0; i < n; i++ {
+			r := c.Rng.Fork()
+			doc := []byte(c05bDoc(r, i%5 == 4))
+			cfg := c05bCfgs[r.Intn(len(c05bCfgs))]
+			if cs := c05bPrepare(c, st, doc, cfg); cs != nil {
+				cases = append(cases, cs)
+			}
+			if len(cases) >= 10000 {
+				if err := c05bCorr(c, st, cases); err != nil {
+					return err
+				}
+				cases = cases[:0]
+			}
+		}
+		if err := c05bCorr(c, st, cases); err != nil {
+			return err
+		}
+		st.End()
+
+		// ---- corpus and benchmark files ----
+		st = c.R.StartStage("corpus", "/repo/tests/svg/corpus/*, /repo/_benchmarks/*.svg x {stand-alone, inline} with css.Minify; same comparison; non-trivial = output differs from input")
+		var files []string
+		for _, pat := range []string{"tests/svg/corpus/*", "_benchmarks/*.svg"} {
+			m, _ := filepath.Glob(filepath.Join(c.Repo, pat))
+			sort.Strings(m)
+			files = append(files, m...)
+		}
+		cases = cases[:0]
+		for _, f := range files {
+			b, err := os.ReadFile(f)
+			if err != nil {
+				continue
+			}
+			if len(b) > 200000 && !c.Thorough() && !c.Search {
+				c.R.Note("corpus file %s (%d bytes) only in the thorough tier", strings.TrimPrefix(f, c.Repo+"/"), len(b))
+				continue
+			}
+			for _, cfg := range []c05bCfg{{false, false, "css"}, {true, true, "css"}} {
+				if cs := c05bPrepare(c, st, b, cfg); cs != nil {
+					cs.key = fmt.Sprintf("file %s %s", strings.TrimPrefix(f, c.Repo+"/"), cfg)
 					cases = append(cases, cs)
 				}
 			}
